@@ -451,7 +451,9 @@ def check_group_information_unchanged(ctx, m):
                 bad = n
             elif isinstance(n, ast.IfExp):
                 e = emptiness(n.test)
-                if e and noneish(n.orelse if not e[1] else n.body) and U(n.body if not e[1] else n.orelse) == e[0]:
+                keep_ = n.body if (e and not e[1]) else n.orelse
+                # the kept arm is X itself or something made of X (list(X), sorted(X), X[:]): either way a falsy X leaves as None
+                if e and noneish(n.orelse if not e[1] else n.body) and (U(keep_) == e[0] or any(U(x_) == e[0] for x_ in ast.walk(keep_))):
                     bad = n
             if bad is not None:
                 ctx.fail('C03.R14', '%s|falsy value replaced by None: %s' % (qn, ' '.join(U(bad).split())[:60]), '%s:%s %s' % (rel, bad.lineno, qn),
